@@ -152,7 +152,7 @@ def _check(out, elapsed):
         assert not is_ago, \
             "a date %d us in the future (more than a minute) is rendered as the past phrase %r" % (-elapsed, out)
     if not is_ago:
-        pass
+        assert "ago" not in out, "relative-past wording inside %r" % (out,)
         if elapsed >= 0:
             reached("absolute_past")
         return
